@@ -12,14 +12,20 @@ import (
 
 // vBufStream is an in-memory Stream: writes go to W, reads come from R (EOF at the end).
 type vBufStream struct {
-	mu sync.Mutex
-	R  *bytes.Reader
-	W  bytes.Buffer
+	mu      sync.Mutex
+	R       *bytes.Reader
+	W       bytes.Buffer
+	MaxRead int
 }
 
 func (b *vBufStream) Read(p []byte) (int, error) {
 	if b.R == nil {
 		return 0, io.EOF
+	}
+	// MaxRead > 0: deliver at most that many bytes per call, like a transport that hands
+	// data over segment by segment (a reader must not assume one Read fills its buffer)
+	if b.MaxRead > 0 && len(p) > b.MaxRead {
+		p = p[:b.MaxRead]
 	}
 	return b.R.Read(p)
 }
